@@ -130,3 +130,98 @@ void h_decode(void) {
     VERIF_REACH();
 }
 #endif
+
+/* ---------------- C07: rows of the bootstrapping key / TGSW / TLWE encryptions: which noise level reaches which sampler ---------------- */
+#ifdef H_BKCREATE
+/* tfhe_createLweBootstrappingKey: row i of the bootstrapping key is a TGSW encryption of key bit i with the ACCUMULATOR noise level,
+ * the key-switching key is created from the extracted key towards the input key */
+static int n_enc, n_enc_watched, bad; static const TGswKey *g_rk; static double g_alpha; static int32_t *g_kin; static TGswSample *g_rows; static int last_idx;
+int32_t g_i;
+void tGswSymEncryptInt(TGswSample *result, const int32_t message, double alpha, const TGswKey *key) {
+    long idx = result - g_rows;
+    if (key != g_rk || alpha != g_alpha || idx <= last_idx || message != g_kin[idx]) bad++;
+    last_idx = (int)idx; n_enc++; if (idx == g_i) n_enc_watched++;
+}
+static LweKey *g_ek; static int n_newk, n_delk, s_ext, s_cks, seq; static const LweParams *nk_par;
+LweKey *new_LweKey(const LweParams *params) { g_ek = verif_alloc(sizeof(LweKey)); nk_par = params; n_newk++; return g_ek; }
+void delete_LweKey(LweKey *obj) { if (obj != g_ek) bad++; n_delk++; free(obj); }
+static const TLweKey *x_src;
+void tLweExtractKey(LweKey *result, const TLweKey *key) { if (result != g_ek || key != x_src) bad++; s_ext = ++seq; }
+static LweKeySwitchKey *c_ks; static const LweKey *c_out;
+void lweCreateKeySwitchKey(LweKeySwitchKey *result, const LweKey *in_key, const LweKey *out_key) { if (result != c_ks || in_key != g_ek || out_key != c_out) bad++; s_cks = ++seq; }
+#include "extracted.inc"
+void h_createBootstrappingKey(void) {
+    int32_t n; __CPROVER_assume(n >= 1 && n <= VERIF_NMAX);
+    LweParams ip; *(int32_t *)&ip.n = n; TLweParams tp; *(double *)&tp.alpha_min = 0x1p-25; *(double *)&ip.alpha_min = 0x1p-15;
+    TGswParams gp; *(const TLweParams **)&gp.tlwe_params = &tp;
+    LweKey kin; kin.params = &ip; kin.key = verif_alloc((size_t)n * sizeof(int32_t));
+    TGswKey rk; rk.params = &gp;
+    LweKeySwitchKey ksk; LweBootstrappingKey bk; *(const LweParams **)&bk.in_out_params = &ip; *(const TGswParams **)&bk.bk_params = &gp; bk.ks = &ksk;
+    bk.bk = verif_alloc((size_t)n * sizeof(TGswSample));
+    int32_t gi; __CPROVER_assume(gi >= 0 && gi < n); g_i = gi;
+    g_rk = &rk; g_alpha = tp.alpha_min; g_kin = kin.key; g_rows = bk.bk; last_idx = -1; n_enc = n_enc_watched = bad = 0; n_newk = n_delk = s_ext = s_cks = seq = 0;
+    x_src = &rk.tlwe_key; c_ks = &ksk; c_out = &kin;
+    SAMPLERS_RESET();
+    tfhe_createLweBootstrappingKey(&bk, &kin, &rk);
+    __CPROVER_assert(bad == 0 && n_enc == n && n_enc_watched == 1, "row i of the bootstrapping key: one TGSW encryption of key bit i, under the TGSW key, with the accumulator noise level alpha_min of the TLWE parameters");
+    __CPROVER_assert(n_newk == 1 && nk_par == &tp.extracted_lweparams && s_ext == 1 && s_cks == 2 && n_delk == 1, "key-switching key created from the extracted key (dimension k*N) towards the input key; temporary key released");
+    free(kin.key); free(bk.bk);
+    VERIF_REACH();
+}
+#endif
+
+#ifdef H_TGSWENC
+static int s_zero, s_add, seq, bad; static TGswSample *z_r; static double z_alpha; static const TGswKey *z_k; static TGswSample *a_r; static int32_t a_m; static const TGswParams *a_p;
+void tGswEncryptZero(TGswSample *result, double alpha, const TGswKey *key) { z_r = result; z_alpha = alpha; z_k = key; s_zero = ++seq; }
+void tGswAddMuIntH(TGswSample *result, const int32_t message, const TGswParams *params) { a_r = result; a_m = message; a_p = params; s_add = ++seq; }
+#include "extracted.inc"
+void h_tGswSymEncryptInt(void) {
+    TGswSample res; TGswParams gp; TGswKey key; key.params = &gp; int32_t in_msg; double in_alpha; __CPROVER_assume(in_alpha >= 0.0 && in_alpha <= 1.0);
+    seq = 0;
+    tGswSymEncryptInt(&res, in_msg, in_alpha, &key);
+    __CPROVER_assert(s_zero == 1 && z_r == &res && z_alpha == in_alpha && z_k == &key, "first an encryption of zero with the requested noise level under the key");
+    __CPROVER_assert(s_add == 2 && a_r == &res && a_m == in_msg && a_p == &gp, "then message times the gadget is added (no further noise)");
+    VERIF_REACH();
+}
+#endif
+
+#ifdef H_TGSWZERO
+static int n_calls, n_watched, bad, last; static TGswSample *g_res; static double g_alpha; static const TLweKey *g_key; int32_t g_i;
+void tLweSymEncryptZero(TLweSample *result, double alpha, const TLweKey *key) {
+    long idx = result - g_res->all_sample; if (alpha != g_alpha || key != g_key || idx <= last) bad++; last = (int)idx; n_calls++; if (idx == g_i) n_watched++; }
+#include "extracted.inc"
+void h_tGswEncryptZero(void) {
+    int32_t kpl; __CPROVER_assume(kpl >= 1 && kpl <= 4096);
+    TGswParams gp; *(int32_t *)&gp.kpl = kpl; TGswKey key; key.params = &gp;
+    TGswSample res; res.all_sample = verif_alloc((size_t)kpl * sizeof(TLweSample));
+    double in_alpha; __CPROVER_assume(in_alpha >= 0.0 && in_alpha <= 1.0); int32_t gi; __CPROVER_assume(gi >= 0 && gi < kpl); g_i = gi;
+    g_res = &res; g_alpha = in_alpha; g_key = &key.tlwe_key; n_calls = n_watched = bad = 0; last = -1;
+    tGswEncryptZero(&res, in_alpha, &key);
+    __CPROVER_assert(bad == 0 && n_calls == kpl && n_watched == 1, "every one of the (k+1)l rows is one TLWE encryption of zero with the same requested noise level under the TLWE key");
+    free(res.all_sample);
+    VERIF_REACH();
+}
+#endif
+
+#ifdef H_TLWEZERO
+/* tLweSymEncryptZero: N centred gaussian coefficients of the requested stdev in b, k uniform mask polynomials, b += a_i * s_i */
+static int n_g, n_u, n_m, bad; static double g_alpha; static TLweSample *g_res; static const TLweKey *g_key;
+Torus32 gaussian32(Torus32 message, double sigma) { if (message != 0 || sigma != g_alpha) bad++; n_g++; Torus32 r; return r; }
+void torusPolynomialUniform(TorusPolynomial *result) { if (result != &g_res->a[n_u] || n_u != n_m) bad++; n_u++; }
+void torusPolynomialAddMulRFFT(TorusPolynomial *result, const IntPolynomial *poly1, const TorusPolynomial *poly2) {
+    if (result != g_res->b || poly1 != &g_key->key[n_m] || poly2 != &g_res->a[n_m] || n_u != n_m + 1) bad++; n_m++; }
+#include "extracted.inc"
+void h_tLweSymEncryptZero(void) {
+    int32_t N, k; __CPROVER_assume(N >= 1 && N <= VERIF_NMAX && k >= 1 && k <= 64);
+    TLweParams tp; *(int32_t *)&tp.N = N; *(int32_t *)&tp.k = k; TLweKey key; key.params = &tp; key.key = verif_alloc((size_t)k * sizeof(IntPolynomial));
+    TLweSample res; res.a = verif_alloc((size_t)(k + 1) * sizeof(TorusPolynomial)); res.b = res.a + k; res.b->coefsT = verif_alloc((size_t)N * sizeof(Torus32));
+    const double in_alpha = VERIF_ALPHA;
+    g_alpha = in_alpha; g_res = &res; g_key = &key; n_g = n_u = n_m = bad = 0;
+    tLweSymEncryptZero(&res, in_alpha, &key);
+    __CPROVER_assert(bad == 0 && n_g == N, "one centred gaussian error of the requested standard deviation per coefficient of b, nothing else added to it");
+    __CPROVER_assert(n_u == k && n_m == k, "each of the k mask polynomials is drawn uniformly and then multiplied by its own key polynomial into b, in this order");
+    __CPROVER_assert(res.current_variance == in_alpha * in_alpha, "variance annotation alpha^2");
+    free(res.b->coefsT); free(res.a); free(key.key);
+    VERIF_REACH();
+}
+#endif
